@@ -338,8 +338,9 @@ def opExtend (cfg : Cfg) (hd : HD K P) (s : State K P) (sc : Scope) (acct last :
       match extendIdxs (branchValid hd ai b) last (last + 2 - next0) next0 with
       | none => (s, .err .keyChain, [])
       | some idxs =>
-        -- `extendAddresses` leaves MasterKeyFingerprint zero in the derivation path it reports
-        match mkAll hd sc acct ai usePriv b typ ai.childIdx 0 idxs with
+        -- the derivation path carries the account's MasterKeyFingerprint, as in `nextAddresses` and in a re-read from the
+        -- row (fixed by repo-patches/fix-C08-extendAddresses-fingerprint.diff; before, `cfg.e1`, it was left zero)
+        match mkAll hd sc acct ai usePriv b typ ai.childIdx (if cfg.e1 then 0 else ai.fp) idxs with
         | none => (s, .err .keyChain, [])
         | some objs =>
           let (s1, rows, _) := commitIssue s sc acct internal (s.mem.locked && !watchOnly) objs (getLast idxs next0)
